@@ -135,6 +135,37 @@ func exec1(op string) string {
 				return "bad-op"
 			}
 			toks = append(toks, alive(bulk(h2c33.WindowUpdate(ghostStream, 0), n)))
+		case strings.HasPrefix(t, "ck"):
+			k, err := strconv.Atoi(t[2:])
+			if err != nil {
+				return "bad-op"
+			}
+			cl.Chunk(k)
+			toks = append(toks, "+")
+		case strings.HasPrefix(t, "lp") || strings.HasPrefix(t, "lm"):
+			n, err := strconv.Atoi(t[2:])
+			if err != nil || stalled {
+				return "bad-op"
+			}
+			round := h2c33.Ping(false)
+			per := 1000
+			if t[1] == 'm' {
+				round = append(append(append([]byte(nil), h2c33.Ping(false)...), h2c33.Data(ghostStream, 1, -1, false)...), h2c33.WindowUpdate(ghostStream, 0)...)
+				per = 250
+			}
+			res := "+"
+			for n > 0 && res == "+" {
+				k := n
+				if k > per {
+					k = per
+				}
+				res = alive(cl.Send(bytes.Repeat(round, k)))
+				n -= k
+			}
+			toks = append(toks, res)
+		case t == "pd":
+			id, ok := open(-1, false)
+			toks = append(toks, alive(ok && cl.Send(h2c33.Data(id, 3, 5, false))))
 		case t == "hh":
 			id, ok := open(-1, false)
 			toks = append(toks, alive(ok && cl.Send(cl.Headers(id, -1, false))))
@@ -199,8 +230,14 @@ func gen(r *vh.Rand) string {
 		}
 	}
 	// an elicitor whose control frame comes from a stream-error path; returns the frames it queues
+	if r.Chance(1, 6) {
+		add("ck%d", []int{1, 2, 3, 8, 9, 10, 17}[r.Intn(7)])
+	}
 	serr := func() int {
-		switch r.Intn(6) {
+		switch r.Intn(7) {
+		case 6:
+			add("pd")
+			return 1
 		case 0:
 			add("hh")
 			return 1
@@ -222,7 +259,26 @@ func gen(r *vh.Rand) string {
 			return 1
 		}
 	}
-	switch k := r.Intn(14); {
+	switch k := r.Intn(16); {
+	case k >= 14:
+		// long normal use: far more control frames than the limit in total, but the client reads;
+		// a counter that is not decremented for some kind of frame would close the connection
+		n := limit + r.Range(1, limit/2)
+		if !vh.Thorough {
+			n = limit + r.Range(1, 500)
+		}
+		if r.Bool() {
+			add("lp%d", n)
+		} else {
+			add("lm%d", n/4+1)
+		}
+		add("o")
+		add("stall")
+		add("p%d", r.Range(1, 30))
+		add("pd")
+		add("o")
+		add("rel")
+		add("o")
 	case k >= 10:
 		// flood made ONLY of frames answered through a stream error (RST_STREAM), under a stalled writer
 		add("stall")
